@@ -231,8 +231,10 @@ class Garbage(Op):
         # long digit runs in every numeric position of each notation, well-formed and not (a pattern that
         # backtracks exponentially on them is a hang within a few dozen digits)
         digits = "14285714285714285714285714285714285714285714285714"
-        for k in (22, 30, 48):
-            run = digits[:k]
+        # ... and runs beyond what a binary64 holds (10**309 and up overflow float conversion and division: an
+        # OverflowError is not a ValueError)
+        for k in (22, 30, 48, 310, 400):
+            run = (digits * 9)[:k]
             for tmpl in ("PT%sS", "PT%sM", "PT%sH", "PT0.%sS", "PT0,%sM", "PT%s", "PT%sx", "PT%sSM", "P%sD", "P%sY",
                          "P%sW", "P%s", "P1Y%sM", "PT1.%s.1S", "PT%s,%sS", "P0001-01-01T%s", "-P%sDT%sS"):
                 yield ("dur", tmpl.replace("%s", run))
